@@ -18,6 +18,7 @@ import (
 	"os"
 	"reflect"
 	"sort"
+	"strings"
 	"testing"
 	"unicode/utf8"
 )
@@ -67,6 +68,37 @@ type govcStruct struct {
 	G  float64           `json:"g"`
 }
 
+type govcStruct10 struct {
+	Pad     string            `json:"pad"`
+	Bravo   int               `json:"bravo"`
+	Charlie string            `json:"charlie"`
+	Delta   []int             `json:"delta"`
+	Echo    map[string]string `json:"echo"`
+	Foxtrot *bool             `json:"foxtrot"`
+	Golf    float64           `json:"golf"`
+	Hotel   interface{}       `json:"hotel"`
+	India   int               `json:"india"`
+	Juliett int               `json:"juliett"`
+}
+
+type govcStruct6 struct {
+	Pad     string      `json:"pad"`
+	Bravo   int         `json:"bravo"`
+	Charlie string      `json:"charlie"`
+	Delta   []int       `json:"delta"`
+	Hotel   interface{} `json:"hotel"`
+	Juliett int         `json:"juliett"`
+}
+
+type govcStruct20 struct {
+	Pad, Charlie                           string
+	Bravo, India, Juliett                  int
+	Delta                                  []int
+	Hotel                                  interface{}
+	F1, F2, F3, F4, F5, F6, F7, F8, F9, Fa int
+	Fb, Fc, Fd                             int
+}
+
 // govcTokenKind classifies the byte position of a cut (coarse lexer over valid-ish JSON).
 func govcTokenKind(doc []byte, cut int) string {
 	inStr := false
@@ -102,6 +134,22 @@ func govcTokenKind(doc []byte, cut int) string {
 		}
 	}
 	return kind
+}
+
+func govcShort(v interface{}) string {
+	s := fmt.Sprintf("%+v", v)
+	for {
+		i := strings.Index(s, "xxxxxxxx")
+		if i < 0 {
+			break
+		}
+		j := i
+		for j < len(s) && s[j] == 'x' {
+			j++
+		}
+		s = s[:i] + fmt.Sprintf("x*%d", j-i) + s[j:]
+	}
+	return s
 }
 
 func TestGovcBounded(t *testing.T) {
@@ -244,6 +292,68 @@ func TestGovcBounded(t *testing.T) {
 			}
 		}
 	}
+	// ---- window boundaries: the stream window is full at fixed absolute offsets (511, 1023, ...)
+	// whatever the reader does, and a refill there reallocates the window. A padded first member
+	// slides every byte of the members after it across those offsets, for the three struct key
+	// scanners (8-bit bitmap, 16-bit bitmap, map), a map and interface{}.
+	bs := string(rune(92))
+	tails := []string{
+		`"juliett":7,"bravo":2`,
+		`"charlie":"v` + bs + `n` + bs + `"w","juliett":-12`,
+		`"JULIETT":7,"Bravo":2`,
+		`"zz` + bs + `"x":1,"bravo":2`,
+		`"unknown` + bs + bs + `":{"k":"` + bs + `"","l":[1,"]"]},"india":3`,
+		`"j` + bs + `u0075liett":7,"bravo":2`,
+		`"delta":[1,-22,333],"hotel":{"k":[true,false,null,1.5e3,"s"]},"juliett":1`,
+		`"charlie":"` + string(rune(0xe9)) + string(rune(0x1f600)) + `","hotel":"` + bs + `ud83d` + bs + `ude00","juliett":1`,
+		`"hotel":null,"india": 12 ,"juliett" : 3 `,
+	}
+	bdsts := []govcStreamDst{
+		{"struct10", func() interface{} { return new(govcStruct10) }},
+		{"struct6", func() interface{} { return new(govcStruct6) }},
+		{"struct20", func() interface{} { return new(govcStruct20) }},
+		{"iface", func() interface{} { return new(interface{}) }},
+		{"map", func() interface{} { return new(map[string]interface{}) }},
+	}
+	bounds := []int{511}
+	if thorough {
+		bounds = append(bounds, 1023)
+	}
+	nb := 0
+	for ti, tail := range tails {
+		for _, bound := range bounds {
+			// the member after the padding starts at offset len(`{"pad":"`)+pad+len(`",`) = pad+10
+			for pad := bound - 10 - len(tail) - 1; pad <= bound-10+1; pad++ {
+				if pad < 0 {
+					continue
+				}
+				doc := []byte(`{"pad":"` + string(bytes.Repeat([]byte("x"), pad)) + `",` + tail + `}`)
+				for _, dst := range bdsts {
+					bv := dst.mk()
+					berr := Unmarshal(doc, bv)
+					want := reflect.ValueOf(bv).Elem().Interface()
+					for _, size := range []int{0, 1, 7, 512} {
+						nb++
+						var cuts []int
+						for c := size; size > 0 && c < len(doc); c += size {
+							cuts = append(cuts, c)
+						}
+						got, gerr, gp := run(doc, cuts, -1, dst.mk)
+						what := fmt.Sprintf("tail %d=%s pad=%d (member starts at %d) pieces=%d dst=%s: stream=(%s, err=%v) buffer=(%s, err=%v)", ti, tail, pad, pad+10, size, dst.name, govcShort(got), gerr, govcShort(want), berr)
+						cls := fmt.Sprintf("-%s-tail%d-at-window-boundary", dst.name, ti)
+						switch {
+						case gp:
+							record("stream-panic"+cls, what)
+						case (gerr == nil) != (berr == nil):
+							record("stream-vs-buffer-verdict"+cls, what)
+						case gerr == nil && !reflect.DeepEqual(got, want):
+							record("stream-vs-buffer-value"+cls, what)
+						}
+					}
+				}
+			}
+		}
+	}
 	var ks []string
 	for k := range classes {
 		ks = append(ks, k)
@@ -252,5 +362,5 @@ func TestGovcBounded(t *testing.T) {
 	for _, k := range ks {
 		fmt.Printf("BOUNDED-CLASS %s example: %s\n", k, classes[k])
 	}
-	fmt.Printf("BOUNDED-OK stream decoding against one-piece and buffer decoding: %d documents x %d destinations, %d chunked or failing runs, %d disagreement classes\n", len(docs), len(dsts), n, len(ks))
+	fmt.Printf("BOUNDED-OK stream decoding against one-piece and buffer decoding: %d documents x %d destinations, %d chunked or failing runs; %d member tails slid across window offsets %v for %d destinations (%d runs); %d disagreement classes\n", len(docs), len(dsts), n, len(tails), bounds, len(bdsts), nb, len(ks))
 }
